@@ -22,7 +22,7 @@ ID = 'C03'
 LEVEL = 'exploration'
 ENGINE = 'bex'
 RULE = (
-    'seven complete sub-lattices (see coverage.sublattices): kinds x dtypes x states; description/units/default '
+    'ten complete sub-lattices (see coverage.sublattices): representation of assigned values; construction routes; in-place species fill; kinds x dtypes x states; description/units/default '
     'texts; all species subsets of a gap palette for one field; all subset pairs for two species fields '
     'in one field set and in two files; all set/None/left patterns of three optional fields x the base '
     'optional fields; layouts x read modes x store sizes x species schemes. Non-trivial = a species key set '
@@ -210,10 +210,68 @@ def _sl_layouts(tier):
     return {'name': 'layouts x read modes x store sizes x species schemes', 'axes': axes, 'cases': cases}
 
 
+def _with(c, **kw):
+    c.update(kw)
+    return c
+
+
+def _sl_representation(tier):
+    """The same numbers handed over in different in-memory representations, for every field shape;
+    optionally the caller overwrites its own buffers right after add()."""
+    ns = [3] if tier == 'quick' else [1, 3, 51]
+    how = [('single', 'reopen'), ('memsave', 'reopen'), ('single', 'session')]
+    cases = []
+    for kind, dt, rep, reuse, n, (layout, read) in itertools.product(('TP', 'TSP'), NUM, rm.ARRAY_REPRS, (0, 1), ns, how):
+        sub = ['CO2', 'CO'] if kind == 'TSP' else []
+        tr = [{'n': n, 'st': [[['set', sub]]]}, {'n': n + 1, 'st': [[['set', sub]]]}]
+        cases.append(_with(_case([[_fd(kind, dt)]], tr, layout=layout, read=read), arep=rep, reuse=reuse))
+    for kind, dt, rep, vals in itertools.product(('T', 'TS', 'TM', 'TSM'), NUM, rm.SCALAR_REPRS, ('plain', 'special')):
+        sub = ['CO2', 'CO'] if kind in SKINDS else []
+        cases.append(_with(_case([[_fd(kind, dt)]], [{'n': 2, 'st': [[['set', sub]]]}], vals=vals), srep=rep))
+    axes = {'per-point kind': ['TP', 'TSP'], 'dtype': NUM, 'array representation': rm.ARRAY_REPRS, 'caller reuses buffers after add': [0, 1],
+            'npoints': ns, 'layout/read': [f'{a}/{b}' for a, b in how], 'scalar kinds': ['T', 'TS', 'TM', 'TSM'],
+            'scalar representation': rm.SCALAR_REPRS, 'values': ['plain', 'special']}  # fmt: skip
+    return {'name': 'representation of assigned values', 'axes': axes, 'cases': cases}
+
+
+ROUTES = ['assign', 'append', 'assign-copy', 'append-copy']
+ROUTE_SETS = [[_fd('TP', 'f8'), _fd('T', 'i4')], [_fd('TP', 'i4', 'o'), _fd('TS', 'f8'), _fd('TM', 'f8'), _fd('TSM', 'f8')]]
+
+
+def _sl_routes(tier):
+    """Construction route as an axis: fixed size + assignment, point-by-point append (below, at and
+    above the growth block of 50), copy() of each - identical intended contents, identical read-back."""
+    ns = [3, 49, 50, 51] if tier == 'quick' else [1, 3, 49, 50, 51, 99, 100, 101]
+    cases = []
+    for route, n, fs, layout, ntr in itertools.product(ROUTES, ns, ROUTE_SETS, ('single', 'memsave'), (1, 2)):
+        st = [['set', ['CO2', 'CO']] if fd[0] in SKINDS else ['set', []] for fd in fs]
+        tr = [{'n': n + i, 'st': [st]} for i in range(ntr)]
+        cases.append(_with(_case([fs], tr, layout=layout), route=route))
+    axes = {'route': ROUTES, 'npoints': ns, 'field set': [[f'{f[0]}/{f[1]}' for f in fs] for fs in ROUTE_SETS],
+            'layout': ['single', 'memsave'], 'trajectories': [1, 2]}  # fmt: skip
+    return {'name': 'construction route x length around the growth block', 'axes': axes, 'cases': cases}
+
+
+def _sl_inplace(tier):
+    """Two trajectories of one field set built one after the other; species containers filled in place
+    (starting from the default empty value) or assigned; the later one holds a subset of the species."""
+    first = ['CO2', 'H2O', 'CO']
+    pairs = [('inplace', 'inplace'), ('inplace', 'assign'), ('assign', 'inplace')]
+    how = [('single', 'reopen'), ('single', 'session'), ('memsave', 'reopen')]
+    cases = []
+    for kind, (r0, r1), later, (layout, read) in itertools.product(SKINDS, pairs, subsets(first), how):
+        tr = [{'n': 3, 'st': [[['set', first]]], 'route': r0}, {'n': 2, 'st': [[['set', later]]], 'route': r1}]
+        cases.append(_case([[_fd(kind, 'f8')]], tr, layout=layout, read=read))
+    axes = {'kind': SKINDS, 'routes (first, later)': [f'{a},{b}' for a, b in pairs], 'later species': [','.join(x) or '-' for x in subsets(first)],
+            'layout/read': [f'{a}/{b}' for a, b in how]}  # fmt: skip
+    return {'name': 'species filled in place: two trajectories in sequence', 'axes': axes, 'cases': cases}
+
+
 def sublattices(tier, seed):
     return [
         _sl_kinds(tier), _sl_meta(tier), _sl_one_species(tier), _sl_two_species_one_set(tier),
         _sl_two_species_two_sets(tier), _sl_unset(tier), _sl_layouts(tier),
+        _sl_representation(tier), _sl_routes(tier), _sl_inplace(tier),
     ]  # fmt: skip
 
 
@@ -326,6 +384,8 @@ def run_case(case):
         or not (fid_set and name_set)
         or any(st[0] != 'set' for tr in case['trajs'] for fs in tr['st'] for st in fs)
         or bool(assoc_groups or mapped_groups)
+        or case.get('arep', 'fresh') != 'fresh' or case.get('srep', 'python') != 'python' or bool(case.get('reuse'))
+        or any(tr.get('route', case.get('route', 'assign')) != 'assign' for tr in case['trajs'])
     )
 
     def tag_write_error(ex, ks, group, what):
@@ -357,21 +417,67 @@ def run_case(case):
         fsp = file_species[group[0]]
         return any(s not in fsp for s in _species_of(case, k, group))
 
+    arep = case.get('arep', 'fresh')
+    srep = case.get('srep', 'python')
+    sources = {}  # trajectory number -> caller-side buffers its per-point values were taken from
+
     def build(k):
+        """Construct trajectory k by the case's route; every route is meant to give the same contents."""
+        from AEIC.storage import FlightPhase
+        from AEIC.types import Species
+
         tr = case['trajs'][k]
-        t = Trajectory(tr['n'], fieldsets=[fs_names[j] for j in in_traj] or None)
+        route = tr.get('route', case.get('route', 'assign'))
+        src = sources.setdefault(k, [])
+        names = [fs_names[j] for j in in_traj] or None
+        appended = set()
+        if route.startswith('append'):
+            # point by point, the way every builder does it (growth in blocks of 50)
+            t = Trajectory(fieldsets=names)
+            t.set_phase(FlightPhase.CLIMB)
+            cols = {nm: mod[1] for nm, mod in models[k]['base'].items() if mod is not None and mod[0] == 'arr'}
+            for j in in_traj:
+                for fn, fd, st in zip(fnames[j], fsets[j], tr['st'][j]):
+                    if fd[0] == 'TP':
+                        mod = models[k][j][fn]
+                        cols[fn] = mod[1] if mod is not None else [0] * tr['n']
+            for p in range(tr['n']):
+                t.append(**{nm: c[p] for nm, c in cols.items()})
+            appended = set(cols)
+        else:
+            t = Trajectory(tr['n'], fieldsets=names)
         for name, mod in models[k]['base'].items():
             if name in rm.OPT_PHASES and (name != 'n_takeoff' or takeoff == 'left'):
                 continue  # left at the documented default
             if mod is None and name in ('flight_id', 'name'):
                 continue  # never assigned: stays unset
-            setattr(t, name, rm.to_aeic(mod, rm.BASE_FD[name][1]))
+            if name in appended:
+                continue
+            setattr(t, name, rm.to_aeic(mod, rm.BASE_FD[name][1], arep, srep, src))
         for j in in_traj:
             for fn, fd, st in zip(fnames[j], fsets[j], tr['st'][j]):
                 if st[0] == 'left':
                     continue
-                setattr(t, fn, rm.to_aeic(models[k][j][fn], fd[1]))
+                if fn in appended and st[0] == 'set':
+                    continue
+                if route == 'inplace' and fd[0] in SKINDS and st[0] == 'set':
+                    # fill the container the trajectory already has, species by species
+                    cont = getattr(t, fn)
+                    for sp, m in models[k][j][fn][1].items():
+                        cont[Species[sp]] = rm.to_aeic(m, fd[1])
+                    continue
+                setattr(t, fn, rm.to_aeic(models[k][j][fn], fd[1], arep, srep, src))
+        if route.endswith('-copy'):
+            t = t.copy()
         return t
+
+    def clobber(k):
+        """The caller reuses its work arrays after handing the trajectory over."""
+        for a in sources.get(k, []):
+            try:
+                a[...] = 99 if a.dtype.kind in 'iu' else -12345.25
+            except Exception:  # noqa: BLE001
+                pass
 
     def data_obj(k, group):
         cls = type('C03Mapped', (), {'FIELD_SETS': [fs_objs[j] for j in group]})
@@ -427,6 +533,8 @@ def run_case(case):
                     vio.append(V('add-index', f'add of trajectory #{k} returned index {i}, expected {len(stored)}'))
                     raise _Stop
                 stored.append(k)
+                if case.get('reuse'):
+                    clobber(k)
 
             for k in range(n_first):
                 add(k)
